@@ -4,7 +4,7 @@ never a panic, an out-of-bounds / off-boundary slice or an unbounded loop.  Merg
 
 Proof part (coq/props/C15lex.v over coq/model/Lexer.v, a transcription of crates/glaredb_parser/src/tokens.rs with
 explicit Panic / Fuel outcomes): totality with fuel = characters + 1, slices in bounds, tokens tile the input, the
-only error is "Unhandled character", keyword table strictly sorted (binary_search precondition); and over
+only errors are "Unhandled character" and "Unterminated quoted string" (doubled quotes are escapes), keyword table strictly sorted (binary_search precondition); and over
 coq/model/ParserSkel.v (Parser::next/peek_nth and the Pratt loop of ast/expr.rs): guarded token indexing, termination,
 recursion depth <= tokens, witness family of depth n.
 Correspondence part (this module): the real tokenizer (harness/src/bin/gv_lex.rs, catch_unwind per text) and the
@@ -132,6 +132,16 @@ def adversarial(rng, tier):
         out.append(m)
         for d in DELIMS + OPS:
             out += [m + d, d + m, d + m + d, m + d + m, "a" + m + d, d + "1" + m]
+    # a token whose LAST character is 1..4 bytes wide, for every kind of token that is sliced out of the text
+    # (string, identifier, quoted identifier, comment) and next to numbers; at end of input and followed by more
+    for m in MULTI:
+        out += ["'a" + m + "'", "'a" + m, "'" + m + "' x", "x" + m, "x" + m + " y", "x" + m + "'s'", "\"a" + m + "\"", "\"a" + m, "\"" + m + "\".b",
+                "--a" + m, "--a" + m + "\n1", "-- " + m + "\r\n", "1" + m, "1." + m, ".5" + m + "1", m + "1", "'" + m + "''" + m + "'", "select 'caf" + m + "'"]
+    # quotes: doubled quote = escaped quote, unterminated = error (regression inputs of the tokens.rs repair)
+    out += ["'it''s'", "\"a\"\"b\"", "''", "''''", "'''", "''''''", "'''''", "'a''", "'a'''", "''a'", "x''y", "'a''b''c'", "'a' 'b'", "'a'''b'", "'abc", "\"x",
+            "select 'abc", "select 1 as \"x", "\"\"", "\"\"\"\"", "\"\"\"", "\"a\"\"", "'\"'", "\"'\"", "'é''é'", "'''é'", "\"中\"\"中\"", "'a''\n''b'", "''\n''", "e'a\\'b'"]
+    for k in range(1, 9):
+        out += ["'" * k, "\"" * k, "'" * k + "a", "a" + "'" * k, "'" * k + " " + "'" * k]
     # numbers with every exponent / period shape, glued to identifiers, operators and quotes
     for n in NUMS:
         for tail in ["", " ", "a", ".", "'", "x.y", "e", "-", "+1", "\n"]:
@@ -404,8 +414,10 @@ def run_both_expr(gv, gmodel, hdr, texts):
             else:
                 il = o[0]
         ml = model[i] if i < len(model) else "MISSING D0"
-        body, _, d = ml.rpartition(" D")
-        res.append((il, body, int(d) if d.isdigit() else -1))
+        body, sep, d = ml.rpartition(" D")
+        if not sep or not d.isdigit():
+            body, d = ml, "-1"              # LEXERR / NOTUTF8 carry no depth
+        res.append((il, body, int(d)))
     return res
 
 
@@ -502,6 +514,8 @@ def stage_lex(ctx, rng, gv, gmodel, hdr):
                 stats["tokens"] += len(ks)
                 seen_kinds.update(ks)
             stats["tiles_checked"] += 1
+        elif il.startswith("ERRQ"):
+            stats["outcomes"]["err_unterminated"] = stats["outcomes"].get("err_unterminated", 0) + 1
         elif il.startswith("ERR"):
             stats["outcomes"]["err"] += 1
         if what and len(viol) < 6:
